@@ -534,6 +534,23 @@ def proof_stage(ctx, extra_targets=()):
     return True
 
 
+def translate_stage(ctx):
+    """Regenerates coq/theories/Gen from /repo (driver/translate.py).  Returns the summary, or None after registering
+    that the data can no longer be translated (the caller finishes)."""
+    import translate
+    try:
+        summ = translate.generate(REPO, os.path.join(COQ, "theories", "Gen"))
+    except (translate.TranslateError, OSError, ValueError) as e:
+        ctx.obligations = theorems_of(ctx.prop)
+        ctx.violation("the calendar data of the repo can no longer be translated (%s): the model's named-calendar tables "
+                      "cannot be tied to the source" % e,
+                      {"no_failing_input": True, "correspondence": "driver/translate.py", "translator_error": str(e)})
+        return None
+    if not summ["wiring_source"].startswith("static"):
+        ctx.notes.append("translator: name wiring " + summ["wiring_source"])
+    return summ
+
+
 def harness_stage(ctx):
     ok, log = build_harness()
     if not ok:
